@@ -5,4 +5,5 @@ let lookup (p : string) : Model.val0 -> Model.val0 =
   | "C17" -> Model.run_C17
   | "C08" -> Model.run_C08
   | "C13" -> Model.run_C13
+  | "C20" -> Model.run_C20
   | _ -> failwith ("unknown property " ^ p)
